@@ -1,7 +1,7 @@
 ------------------------------- MODULE JudgeMisc -------------------------------
 (* Named clauses for validation (C08), text formats (C17-C19), artifacts (C20) and the wire format (C07). *)
-EXTENDS Validate
-MiscEvents == {"validate", "pvalidate", "typed"}
+EXTENDS Validate, JudgeText
+MiscEvents == {"validate", "pvalidate", "typed"} \cup TextEvents
 ClausesValidate(e) ==
   [ no_panic |-> NoPanic(e),
     validate_iff |-> Ok(e) <=> ValidateOK(e.in.inst) ]
@@ -27,4 +27,5 @@ ClausesMisc(e) ==
   CASE e.ev = "validate" -> ClausesValidate(e)
     [] e.ev = "pvalidate" -> ClausesPValidate(e)
     [] e.ev = "typed" -> ClausesTyped(e)
+    [] e.ev \in TextEvents -> ClausesText(e)
 =============================================================================
